@@ -102,7 +102,6 @@ class NetworkService(ModelElement):
                 for i in interfaces:
                     # run through guardrails, then connect
                     try:
-                        self.__service_guardrails(sliver, i)
                         self.connect_interface(interface=i)
                         connected_interfaces.append(i)
                     except TopologyException as e:
@@ -303,18 +302,19 @@ class NetworkService(ModelElement):
                                             f"{rit} instead of {i.type}")
 
     @staticmethod
-    def __service_guardrails(sliver: NetworkServiceSliver, interface: Interface):
+    def __service_guardrails(nstype: ServiceType, nsname: str, interface: Interface):
         """
         Checks if this interface can be added to this service for various reasons related to e.g.
         service implementation constraints (that can be temporary and change from release to release).
-        :param sliver:
+        :param nstype: type of this service
+        :param nsname: name of this service
         :param interface:
         :return:
         """
         # - L2P2P service does not work for shared ports
-        if sliver.get_type() == ServiceType.L2PTP and \
+        if nstype == ServiceType.L2PTP and \
             interface.type == InterfaceType.SharedPort:
-            raise TopologyException(f"Unable to connect interface {interface.name} to service {sliver.get_name()}: "
+            raise TopologyException(f"Unable to connect interface {interface.name} to service {nsname}: "
                                     f"L2P2P service currently doesn't support shared interfaces")
 
     def connect_interface(self, interface: Interface):
@@ -326,6 +326,9 @@ class NetworkService(ModelElement):
         """
         assert interface is not None
         assert isinstance(interface, Interface)
+
+        # refuse at once combinations this service type cannot support
+        self.__service_guardrails(self.type, self.name, interface)
 
         # we can only connect interfaces connected to (compute or switch) nodes,
         parent = self.topo.get_owner_node(interface)
